@@ -730,8 +730,38 @@ def _inv_poly(e, ctx, n):
                 elif x[0] == "D":
                     raise KernelError("division by a delta")
             return {(tuple(fs), frozenset()): Fraction(1) / (c ** n)}
+    # case split on a 0/1-valued step factor s with free arguments:  1/P(s)^n = (1-s)/P(0)^n + s/P(1)^n
+    sfac = None
+    for (f, nb), c in p.items():
+        for x in f:
+            if x[0] == "F" and x[1] == "step" and not any(isinstance(v, tuple) and v[0] == "B" for h in x[3] for v in _index_leaves(h)):
+                sfac = x
+                break
+        if sfac is not None:
+            break
+    if sfac is not None:
+        without = {k: c for k, c in p.items() if sfac not in k[0]}
+        if without and len(without) < len(p):
+            stripped = dict(without)
+            for (f, nb), c in p.items():
+                if sfac in f:
+                    k2 = (tuple(x for x in f if x != sfac), nb)
+                    stripped[k2] = stripped.get(k2, Fraction(0)) + c
+            e0, e1 = poly_to_expr(without), poly_to_expr(stripped)
+            s_e = ("fatom", "step", sfac[2], sfac[3], 1)
+            r0 = pmul(raw(sub(num(1), s_e), ctx), _inv_poly(e0, ctx, n))
+            r1 = pmul(raw(s_e, ctx), _inv_poly(e1, ctx, n))
+            return padd(r0, r1)
     f = make_fatom("inv", p, ctx, n)
     return {((f,), frozenset()): Fraction(1)}
+
+
+def _index_leaves(i):
+    if isinstance(i, tuple) and i and i[0] == "app":
+        for a in i[2]:
+            yield from _index_leaves(a)
+    else:
+        yield i
 
 
 def form_to_expr(form, holes_map):
@@ -962,8 +992,8 @@ def simplify_mono(f, b, ctx):
         elif k[0] == "N":
             f2.append(("N", k[1], pw))
         elif k[0] == "F":
-            if k[1] == "sqrt" and pw % 2 == 0 or k[1] == "sqrt" and pw >= 2:
-                # sqrt(a)^2 = a
+            if k[1] == "sqrt" and (pw % 2 == 0 or pw >= 2 or pw <= -1):
+                # sqrt(a)^2 = a;  sqrt(a)^-1 = sqrt(a) / a  (canonical powers of a square root: 0 or 1)
                 inner = form_to_expr(ctx.forms[k[2]], dict(enumerate(k[3])))
                 rest = [("F", k[1], k[2], k[3], pw % 2)] if pw % 2 else []
                 others = _rebuild_without(f, k)
@@ -1534,17 +1564,38 @@ def unify_fatoms(p, ctx, fnames=("exp", "log", "Phi", "phi", "sqrt", "cosh", "ta
                 except KernelError:
                     continue
                 if not d:
-                    rules[(fn2, k2)] = (k1, perm)
+                    rules[(fn2, k2)] = (k1, perm, 1)
                     break
+                if fn1 in ("Phi", "phi", "cosh", "tanh"):
+                    # parity: arguments that are NEGATIVES of each other as rational functions
+                    try:
+                        d = normalize(add(e1, e2), ctx)
+                        if d:
+                            d = clear_denominators(d, ctx)
+                    except KernelError:
+                        continue
+                    if not d:
+                        rules[(fn2, k2)] = (k1, perm, -1)
+                        break
     if not rules:
         return None
 
     def fix(e):
         k = e[0]
         if k == "fatom" and (e[1], e[2]) in rules:
-            k1, perm = rules[(e[1], e[2])]
+            k1, perm, sgn = rules[(e[1], e[2])]
             # f<k2>(h_0..h_n) with e2 holes i -> hs[i], e1 holes i -> hs[perm[i]]  =>  f<k1> holes[i] = h[perm[i]]
-            return ("fatom", e[1], k1, tuple(e[3][perm[i]] for i in range(len(perm))), e[4])
+            holes = tuple(e[3][perm[i]] for i in range(len(perm)))
+            if sgn == 1 or e[1] in ("phi", "cosh"):
+                return ("fatom", e[1], k1, holes, e[4])
+            if e[1] == "tanh":
+                base = ("fatom", e[1], k1, holes, e[4])
+                return base if e[4] % 2 == 0 else ("mul", (num(-1), base))
+            # Phi(-x) = 1 - Phi(x)
+            if isinstance(e[4], int) and e[4] >= 1:
+                one_minus = ("add", (num(1), ("mul", (num(-1), ("fatom", e[1], k1, holes, 1)))))
+                return one_minus if e[4] == 1 else ("pow", one_minus, e[4])
+            return e
         if k in ("add", "mul"):
             return (k, tuple(fix(x) for x in e[1]))
         if k == "sum":
@@ -1667,12 +1718,41 @@ def register_inv(ctx, name, X, batch, row, col, head=0, symmetric=True):
         direct = any(any(i is row for i in x[2]) and any(i is col for i in x[2]) for x in f)
         return (0 if (len(f) == 1 and direct) else 1, len(f))
     if head == 0 and terms:
-        head = min(range(len(terms)), key=lambda k: (score(terms[k]), k))
+        pref = getattr(ctx, "prefer_family_head", None)
+        fbatch = [b_ for b_ in batch if pref and (pref is True or str(b_.sort) in pref)]
+        if fbatch:
+            # family indices (sorts named by the obligation) whose members get MULTIPLIED with each other (P_a ... P_b):
+            # orienting on the family-independent term L (L P_a -> I - K_a P_a) has the critical pair P_a L P_b; orient
+            # on a term that depends on the family index instead (if the matcher cannot use it as a head the relation
+            # simply stays inactive, which is sound)
+            def fam(t):
+                ivs = set(id(v) for x in t[1] for v in _factor_ivs(x))
+                missing = len([b_ for b_ in fbatch if id(b_) not in ivs])
+                partner = any(x[0] == "A" and x[1] in ctx.inv_pairs for x in t[1])
+                return (missing, 1 if partner else 0)
+            head = min(range(len(terms)), key=lambda k: (fam(terms[k]), score(terms[k]), k))
+        else:
+            head = min(range(len(terms)), key=lambda k: (score(terms[k]), k))
     ctx.inv_rel[name] = dict(terms=terms, batch=list(batch), row=row, col=col, head=head, X=X)
     if symmetric:
         nb = len(batch)
         ctx.sym[name] = [(nb, nb + 1)]
     return len(terms)
+
+
+def _factor_ivs(x):
+    if x[0] == "A":
+        idx = x[2]
+    elif x[0] == "F":
+        idx = x[3]
+    elif x[0] == "D":
+        idx = (x[1], x[2])
+    else:
+        idx = ()
+    for i in idx:
+        for v in _index_leaves(i):
+            if isinstance(v, IV):
+                yield v
 
 
 def _inst(fpat, m):
